@@ -1,0 +1,30 @@
+//go:build verif
+
+package bfd
+
+import "github.com/gopacket/gopacket/layers"
+
+// Verification hooks (build tag verif): read-only accessors for unexported
+// state, used by the correspondence harness under /verif. No behaviour change.
+
+// VerifTransition exposes the state machine table. Panics are reported as 255.
+func VerifTransition(s, e int) (res int) {
+	defer func() {
+		if recover() != nil {
+			res = 255
+		}
+	}()
+	return int(transition(state(s), event(e)))
+}
+
+// VerifShouldDiscard exposes shouldDiscard.
+func VerifShouldDiscard(pkt *layers.BFD) bool {
+	d, _ := shouldDiscard(pkt)
+	return d
+}
+
+// VerifLocalState returns the local session state (gopacket numbering).
+func (s *Session) VerifLocalState() int { return int(s.getLocalState()) }
+
+// VerifRemoteDiscriminator returns the learned remote discriminator.
+func (s *Session) VerifRemoteDiscriminator() uint32 { return uint32(s.getRemoteDiscriminator()) }
